@@ -27,6 +27,8 @@ var commonAssumptions = []string{
 	"counterexamples are reported only after native replay against the compiled code (go test -overlay)",
 }
 
+const c08Common = "the agent is built by the REAL newAgentWithConfig (real task loop, real on-close teardown closure, real notifiers, real initial Restart) around a struct literal mirroring createAgentBase; Close or GracefulClose is injected after 0..3 (thorough 0..7) fair hand-overs to the other goroutines, plus every schedule with at most 1 (thorough 2) preemptions at synchronisation points and the first 3 (thorough 6) free switches explored over all enabled threads"
+
 func allChecks() []CheckSpec {
 	return []CheckSpec{
 		{
@@ -66,6 +68,62 @@ func allChecks() []CheckSpec {
 				"threads switch only at synchronisation operations (sound for data-race-free code); schedule-dependent counterexamples are replayed by re-executing the recorded schedule on the SSA of the real code",
 			}, commonAssumptions...),
 			Outside: "handlers that re-enter the API or close the agent, event bursts longer than 3, handlers blocking forever, context bounds above 3",
+		},
+		{
+			ID: "C08",
+			Harnesses: []HarnessSpec{
+				{Fn: "verifC08CloseVsAPI", Lemma: "Close/GracefulClose at any explored moment of one concurrently running API call (Restart, SetRemoteCredentials+GetRemoteUserCredentials, AddRemoteCandidate, GetLocalCandidates, StartDial): no explored schedule deadlocks (Close and the call both return), the racing call returns nil or a refusal and a refused SetRemoteCredentials has no effect; afterwards: repeated Close and GracefulClose return nil, GetLocalCandidates/GetRemoteCandidates/GatherCandidates/Restart/SetRemoteCredentials/AwaitConnect/Conn.Read/Conn.Write report the closed error without effect, Dial fails, the last notified state is Closed and it is notified once, candidates are dropped, every started socket was closed, and once no thread can run any more every goroutine the agent started has ended (goroutine census)",
+					Bounds: "5 operations x {Close, GracefulClose}; " + c08Common, MustReach: []string{"closed", "done"},
+					Cfg: func(c *HarnessCfg, tier int) {
+						c.GoPolicy = "explore"
+						c.ContextBound = 1 + tier
+						c.FreeChoiceBound = 3 + 3*tier
+						c.MaxPaths = 6000000
+						c.MaxWallS = 2400
+					}},
+				{Fn: "verifC08CloseVsBlockedIO", Lemma: "the same with blocked I/O: a reader parked in Conn.Read, a Dial parked in AwaitConnect while the candidate's recvLoop is parked in a socket read, the same with the connectivity check's socket write blocking for ever inside a loop task (only a deadline or Close aborts it), and an inbound Binding request arriving at any moment: all of them return, blocked Read/Dial with an error",
+					Bounds: "4 kinds x {Close, GracefulClose}; one local host candidate on a blocking fake socket, one remote; " + c08Common, MustReach: []string{"closed", "socket-read-was-pending-at-close", "socket-write-was-blocked-at-close", "done"},
+					Cfg: func(c *HarnessCfg, tier int) {
+						c.GoPolicy = "explore"
+						c.ContextBound = 1 + tier
+						c.FreeChoiceBound = 3 + 3*tier
+						c.MaxPaths = 6000000
+						c.MaxWallS = 2400
+					}},
+				{Fn: "verifC08CloseVsGather", Lemma: "Close at any explored moment of a gathering cycle (one interface, blocking sockets): GatherCandidates returns nil or closed, every socket the cycle opened is closed, same finality clauses",
+					Bounds: "one IPv4 interface, host candidates only; " + c08Common, MustReach: []string{"closed", "socket-opened-before-close", "done"},
+					Cfg: func(c *HarnessCfg, tier int) {
+						c.GoPolicy = "explore"
+						c.ContextBound = 1 + tier
+						c.FreeChoiceBound = 3 + 3*tier
+						c.MaxPaths = 6000000
+						c.MaxWallS = 2400
+					}},
+				{Fn: "verifC08CloseInCallback", Lemma: "Close called from inside the connection-state callback (on Checking) returns; same finality clauses",
+					Bounds: "StartDial triggers Checking; " + c08Common, MustReach: []string{"closed", "done"},
+					Cfg: func(c *HarnessCfg, tier int) {
+						c.GoPolicy = "explore"
+						c.ContextBound = 1 + tier
+						c.FreeChoiceBound = 3 + 3*tier
+						c.MaxPaths = 6000000
+						c.MaxWallS = 2400
+					}},
+				{Fn: "verifC08CloseConcurrent", Lemma: "Close, GracefulClose and a third close call racing from three goroutines all return nil; same finality clauses",
+					Bounds: "3 closers, one started candidate; " + c08Common, MustReach: []string{"closed", "done"},
+					Cfg: func(c *HarnessCfg, tier int) {
+						c.GoPolicy = "explore"
+						c.ContextBound = 1 + tier
+						c.FreeChoiceBound = 3 + 3*tier
+						c.MaxPaths = 6000000
+						c.MaxWallS = 2400
+					}},
+			},
+			Assumptions: append([]string{
+				"threads switch only at synchronisation operations (sound for data-race-free code; data races themselves are outside); termination = no explored schedule reaches a state in which a thread can never run again; 'bounded time' is not measured",
+				"sockets are fakes: ReadFrom blocks until a datagram, a deadline or Close; WriteTo optionally blocks until a deadline or Close; time.Timer channels never fire (0 scripted ticks), so the connectivity-check goroutine only reacts to the force channel and to loop.Done",
+				"schedule-dependent counterexamples are replayed by re-executing the recorded schedule on the SSA of the real code; the harness is additionally run natively under the Go scheduler (the census is engine-only)",
+			}, commonAssumptions...),
+			Outside: "mDNS, TCP/relay/srflx candidates and muxes during Close, GracefulClose from inside a callback (documented as unsafe), Close returning an error from a socket, more than one concurrent operation, deeper context bounds, wall-clock bounds",
 		},
 		{
 			ID: "C10",
@@ -146,12 +204,15 @@ func allChecks() []CheckSpec {
 				{Fn: "verifC12Sequence", Lemma: "sequential operation sequences on the real UDPMuxDefault (GetConn, write through a handle, inbound datagram through the real connWorker, RemoveConnByUfrag, handle Close, mux Close) against a reference routing table (owner by canonical address = last writer, connections by ufrag): every inbound datagram grows exactly the reference's destination queue by one byte-identical packet with the true source, no other queue changes; first-contact STUN is routed by the USERNAME prefix only to that ufrag's connection of the source's family; per-connection FIFO; address map and per-connection lists agree with canonical keys; removed/closed connections receive nothing and own no binding",
 					Bounds: "3 (quick) / 5 (thorough) operations over 2 ufrags, 4 addresses (two IPv4, the IPv4-mapped form of the first, one IPv6), datagram = 3 arbitrary bytes or STUN with USERNAME of a known or arbitrary 2-byte ufrag, IPv4 mux socket", MustReach: []string{"written", "delivered", "dropped", "removed", "last-handle-closed", "mux-closed", "done"},
 					Cfg: func(c *HarnessCfg, tier int) { c.GoPolicy = "queue" }},
+				{Fn: "verifC12DualStack", Lemma: "a mux on the unspecified address serving one ufrag on both IP families: each family's first-contact request reaches its own connection; after RemoveConnByUfrag, after the handles were closed, or after mux Close the ufrag is gone from both family tables, no address binding points at either connection, neither receives anything (from a bound address or by ufrag, either family) and GetConn returns a fresh connection",
+					Bounds: "one ufrag, one IPv4 and one IPv6 local address, optional write to one peer per family before the removal, 3 removal forms x 4 follow-up datagrams with symbolic payload/transaction id", MustReach: []string{"removed", "mux-closed", "handles-closed", "done"},
+					Cfg: func(c *HarnessCfg, tier int) { c.GoPolicy = "queue" }},
 			},
 			Assumptions: append([]string{
 				"goroutines (connWorker, the per-connection close watcher) take turns at operation boundaries: each runs until it blocks (one legal schedule per path; interleavings are outside the claim)",
 				"the shared socket is a recording fake fed through a channel; sync.Pool = New() on every Get",
 			}, commonAssumptions...),
-			Outside: "concurrent interleavings of these operations, MultiUDPMuxDefault, the universal mux's XOR-mapped cache, unspecified-address muxes (IPv6 connections)",
+			Outside: "concurrent interleavings of these operations, MultiUDPMuxDefault, the universal mux's XOR-mapped cache, longer histories on unspecified-address muxes than the dual-stack script",
 		},
 		{
 			ID: "C13",
@@ -186,6 +247,8 @@ func allChecks() []CheckSpec {
 					Bounds: "attribute values of every length 0..20 with arbitrary bytes", MustReach: []string{"done"}},
 				{Fn: "verifC16Equality", Lemma: "Equal and DeepEqual are reflexive and symmetric and DeepEqual implies Equal, over pairs of candidates from the real constructors",
 					Bounds: "4 types x 5 pool addresses (IPv4, IPv6, IPv4-mapped, mDNS) x udp/tcp x any port/component/priority x 4 TCP types x 3 related-address forms x 0..1 (thorough 0..2) one-byte extensions, for both candidates", MustReach: []string{"equal", "deep-equal", "done"}},
+				{Fn: "verifC16ExtensionEquality", Lemma: "DeepEqual of two candidates that differ only in their extension lists is reflexive, symmetric and equal to multiset equality of the (key, value) pairs (extension names may repeat, order is irrelevant); Equal ignores extensions",
+					Bounds: "two host candidates with 2 (thorough: 2..3) extensions each, every key and value an arbitrary byte, so repeated names with equal or different values are included", MustReach: []string{"deep-equal", "not-deep-equal", "done"}},
 				{Fn: "verifC16Tokenizers", Lemma: "the five tokenizers on arbitrary text from any start offset: no panic, returned positions within [start,len], tokens respect their alphabets, digit value = decimal value, port <= 65535",
 					Bounds: "all byte strings (full UTF-8 decoding) of length 0..4 (quick) / 0..6 (thorough), every start offset", MustReach: []string{"digits", "done"}},
 				{Fn: "verifC16Extensions", Lemma: "unmarshalCandidateExtensions(marshalExtensions(x)) = x incl. the tcptype pseudo-extension",
@@ -209,6 +272,8 @@ func allChecks() []CheckSpec {
 				{Fn: "verifC19EvaluateCatchAll4", Lemma: "same differential lemma for 4 catch-all rules (no explicit entries): specificity and declaration order", Bounds: "4 rules, interface/CIDR/flags/mode symbolic as above", MustReach: []string{"catch-all", "done"}, ThoroughOnly: true},
 				{Fn: "verifC19Appliers", Lemma: "applyHostAddressRewrite, applyHostRewriteForUDPMux, resolveSrflxAddresses, resolveRelayAddresses: replace substitutes (empty list drops the candidate), append adds (empty list changes nothing), no match keeps the original; srflx emits only mapped addresses and replace mode switches STUN gathering off",
 					Bounds: "one rule, 0..2 external addresses, both modes, matching / not matching, three candidate types", MustReach: []string{"host", "srflx", "relay", "done"}},
+				{Fn: "verifC19Compile", Lemma: "end to end (real newAddressRewriteMapper + findExternalIPs): rules written as External/Local/Networks/Mode apply only to the address, IP family and networks they name — a catch-all to the family of its external addresses, an empty rule to every family its Networks allow and to no other, a Local rule to exactly that address; first explicit match wins, else the first catch-all; the winning rule's mode and addresses are returned",
+					Bounds: "2 host rules, each External in {none, IPv4, IPv6, both} x Local in {none, the IPv4 lookup address, the IPv6 one} x Networks in {all, IPv4 only, IPv6 only} x Mode; lookups for one IPv4 and one IPv6 address without interface (2592 rule sets, concrete text)", MustReach: []string{"matched", "unmatched", "empty-rule", "done"}},
 				{Fn: "verifC19Construct", Lemma: "newAddressRewriteMapper rejects invalid rule sets (bad IP, external with prefix, Local outside CIDR, bad CIDR, peer-reflexive type) and accepts valid ones; catch-alls never cross IP families",
 					Bounds: "all ordered pairs from a pool of 10 concrete rules", MustReach: []string{"valid", "invalid", "done"}},
 			},
